@@ -22,7 +22,12 @@ fn key_of<K>(k: &K) -> u32 {
     assert!(core::mem::size_of::<K>() == 4);
     unsafe { core::mem::transmute_copy(k) }
 }
-fn map_insert_stub<K, V, S, A: Allocator>(_m: &mut HashMap<K, V, S, A>, k: K, v: V) -> Option<V> {
+// Kani (0.68) cannot match a free function against a method that has generics of its own
+// (`get<Q>`, `remove<Q>`); an associated function in an impl block with the same parent
+// generics is accepted.
+pub struct MapStub<K, V, S, A>(core::marker::PhantomData<(K, V, S, A)>);
+impl<K, V, S, A: Allocator> MapStub<K, V, S, A> {
+    pub fn insert(_m: &mut HashMap<K, V, S, A>, k: K, v: V) -> Option<V> {
     let key = key_of(&k);
     assert!(core::mem::size_of::<V>() == core::mem::size_of::<usize>());
     let val: usize = unsafe { core::mem::transmute_copy(&v) };
@@ -52,7 +57,7 @@ fn map_insert_stub<K, V, S, A: Allocator>(_m: &mut HashMap<K, V, S, A>, k: K, v:
     kani::assume(false); // more than CAP entries: outside the bound
     None
 }
-fn map_get_stub<K, V: 'static, S, A: Allocator, Q: ?Sized>(_m: &HashMap<K, V, S, A>, k: &Q) -> Option<&'static V> {
+    pub fn get<'a, Q: ?Sized>(_m: &'a HashMap<K, V, S, A>, k: &Q) -> Option<&'a V> {
     let key: u32 = unsafe { core::ptr::read(k as *const Q as *const u32) };
     unsafe {
         let mut i = 0;
@@ -65,7 +70,7 @@ fn map_get_stub<K, V: 'static, S, A: Allocator, Q: ?Sized>(_m: &HashMap<K, V, S,
     }
     None
 }
-fn map_remove_stub<K, V, S, A: Allocator, Q: ?Sized>(_m: &mut HashMap<K, V, S, A>, k: &Q) -> Option<V> {
+    pub fn remove<Q: ?Sized>(_m: &mut HashMap<K, V, S, A>, k: &Q) -> Option<V> {
     let key: u32 = unsafe { core::ptr::read(k as *const Q as *const u32) };
     unsafe {
         let mut i = 0;
@@ -79,6 +84,12 @@ fn map_remove_stub<K, V, S, A: Allocator, Q: ?Sized>(_m: &mut HashMap<K, V, S, A
         }
     }
     None
+}
+}
+
+// `HashSet::<usize>::default()` seeds SipHash from the OS (getrandom syscall)
+fn random_state_stub() -> std::hash::RandomState {
+    unsafe { core::mem::transmute::<[u64; 2], std::hash::RandomState>([1, 2]) }
 }
 fn set_insert_stub<T, S, A: Allocator>(_s: &mut HashSet<T, S, A>, v: T) -> bool {
     core::mem::forget(v);
@@ -117,7 +128,11 @@ macro_rules! sym_harness {
         #[kani::unwind(8)]
         #[kani::stub(std::rt::thread_cleanup, noop)]
         #[kani::stub(alloc::fmt::format, fmt_stub)]
+        #[kani::stub(std::collections::HashMap::insert, MapStub::insert)]
+        #[kani::stub(std::collections::HashMap::get, MapStub::get)]
+        #[kani::stub(std::collections::HashMap::remove, MapStub::remove)]
         #[kani::stub(std::collections::HashSet::insert, set_insert_stub)]
+        #[kani::stub(std::hash::RandomState::new, random_state_stub)]
         fn $name() {
             tag_init();
             $body
@@ -131,38 +146,42 @@ fn any_name() -> u32 {
     n
 }
 
-// A successful evaluation defines up to two names; then a FAILED evaluation (re)defines one or
+// A successful evaluation defines one or two names; then a FAILED evaluation (re)defines one or
 // two names and is rolled back to the table length taken before it, exactly as
 // Engine::raw_program_to_executable does.  Afterwards every name must resolve as before.
-sym_harness!(sym_rollback_restores_earlier_definitions, {
+// (The numbers of definitions are concrete per harness so that all vector lengths are; the
+// names are symbolic.)
+fn rollback_body(n2: u32, ftwo: bool) {
+    // successful evaluation: (define n1 ..) and, if n2 != 0, (define n2 ..); n2 == 1 redefines n1
     let mut sm = SymbolMap::new();
     let mut g = Ghost { cur: [None; NAMES] };
-    let n1 = any_name();
-    let n2 = any_name();
-    let two: bool = kani::any();
+    let n1: u32 = 1;
     let s1 = sm.add(&name(n1));
     g.cur[n1 as usize - 1] = Some(s1);
-    if two {
+    if n2 != 0 {
         let s2 = sm.add(&name(n2));
         g.cur[n2 as usize - 1] = Some(s2);
     }
-    vassert!(agrees(&sm, &g), "a definition does not resolve to the slot it was given");
-    // the failed evaluation
+    // the failed evaluation: one or two definitions of SYMBOLIC names
     let offset = sm.len();
     let f1 = any_name();
-    let f2 = any_name();
-    let ftwo: bool = kani::any();
     let _ = sm.add(&name(f1));
     if ftwo {
+        let f2 = any_name();
         let _ = sm.add(&name(f2));
     }
     sm.roll_back(offset);
     kani::cover!(f1 == n1, "failed evaluation redefined an earlier name");
-    kani::cover!(f1 != n1 && !(two && f1 == n2), "failed evaluation introduced a new name");
+    kani::cover!(f1 == 3, "failed evaluation introduced a new name");
     vassert!(sm.len() == offset, "roll-back left slots of the failed evaluation behind");
     vassert!(agrees(&sm, &g), "after a failed evaluation a name no longer resolves as before it");
     core::mem::forget(sm);
-});
+}
+sym_harness!(sym_rollback_1_1, { rollback_body(0, false) });
+sym_harness!(sym_rollback_2_1, { rollback_body(2, false) });
+sym_harness!(sym_rollback_1_2, { rollback_body(0, true) });
+sym_harness!(sym_rollback_2_2, { rollback_body(2, true) });
+sym_harness!(sym_rollback_redef_1, { rollback_body(1, false) });
 
 // Slot recycling: a shadowed slot that the recycler released is handed out again; the binding
 // in force for every other name is untouched, and the released slot is given to exactly one
@@ -208,7 +227,7 @@ sym_harness!(sym_recycled_slot_reuse, {
 sym_harness!(sym_rollback_with_recycled_slot, {
     let mut sm = SymbolMap::new();
     let mut g = Ghost { cur: [None; NAMES] };
-    let a = any_name();
+    let a: u32 = 1;
     let s_a1 = sm.add(&name(a));
     let s_a2 = sm.add(&name(a));
     g.cur[a as usize - 1] = Some(s_a2);
@@ -221,5 +240,31 @@ sym_harness!(sym_rollback_with_recycled_slot, {
     kani::cover!(s_f < offset, "failed definition landed below the roll-back offset");
     sm.roll_back(offset);
     vassert!(agrees(&sm, &g), "after a failed evaluation that reused a released slot, names do not resolve as before");
+    core::mem::forget(sm);
+});
+
+// masked twin for the listed finding "a failed definition that took a released slot is not undone":
+// every OTHER name must still resolve as before
+sym_harness!(sym_rollback_with_recycled_slot__kf, {
+    let mut sm = SymbolMap::new();
+    let mut g = Ghost { cur: [None; NAMES] };
+    let a: u32 = 1;
+    let _s_a1 = sm.add(&name(a));
+    let s_a2 = sm.add(&name(a));
+    g.cur[a as usize - 1] = Some(s_a2);
+    let freed = sm.free_list.shadowed_slots.pop().unwrap();
+    sm.free_list.free_list.push(freed);
+    let offset = sm.len();
+    let f = any_name();
+    let s_f = sm.add(&name(f));
+    kani::cover!(s_f < offset, "failed definition landed below the roll-back offset");
+    sm.roll_back(offset);
+    let mut i = 0;
+    while i < NAMES {
+        if i as u32 + 1 != f {
+            vassert!(lookup(&sm, i as u32 + 1) == g.cur[i], "a failed evaluation that reused a released slot disturbed an unrelated name");
+        }
+        i += 1;
+    }
     core::mem::forget(sm);
 });
